@@ -257,25 +257,31 @@ def misc_cases(_=None):
   # in-place edit made through one flag (or one directive) is never seen by another
   n += 1
   text = 'config:with_list(layers=[16, 32])'
-  f1, f2 = make_flag(), make_flag()
-  f1.parse([text]); f2.parse([text])
-  v1, v2 = f1.value, f2.value
-  f1.parse(['set:p[0]=7'])
-  if list(f1.value.p) != [7, 32]:
-    bad(f'set:p[0]=7 gave {f1.value.p}')
-  if list(f2.value.p) != [16, 32]:
-    bad(f'an override applied to one flag changed an independent flag built from the same text: {f2.value.p}')
-  f3 = make_flag()
-  f3.parse([text])
-  if list(f3.value.p) != [16, 32]:
-    bad(f'a flag parsed after an override of another flag starts with {f3.value.p} instead of [16, 32]')
+  try:
+    f1, f2 = make_flag(), make_flag()
+    f1.parse([text]); f2.parse([text])
+    v1, v2 = f1.value, f2.value
+    f1.parse(['set:p[0]=7'])
+    if list(f1.value.p) != [7, 32]:
+      bad(f'set:p[0]=7 gave {f1.value.p}')
+    if list(f2.value.p) != [16, 32]:
+      bad(f'an override applied to one flag changed an independent flag built from the same text: {f2.value.p}')
+    f3 = make_flag()
+    f3.parse([text])
+    if list(f3.value.p) != [16, 32]:
+      bad(f'a flag parsed after an override of another flag starts with {f3.value.p} instead of [16, 32]')
+  except Exception as e:   # pylint: disable=broad-except
+    bad(f'flags built from {text!r} with one override: {type(e).__name__}: {e}')
   n += 1
-  f4 = make_flag()
-  f4.parse(['config:with_list(layers=[0])', 'fiddler:set_layers(layers=[1, 2])', 'fiddler:widen(factor=10)',
-            'set:p[1]=5', 'fiddler:set_layers(layers=[1, 2])', 'fiddler:widen(factor=2)'])
-  if list(f4.value.p) != [2, 4]:
-    bad(f'directives applied in order give p == [2, 4]; the flag produced {f4.value.p} (a literal '
-        'argument of an earlier directive was reused)')
+  try:
+    f4 = make_flag()
+    f4.parse(['config:with_list(layers=[0])', 'fiddler:set_layers(layers=[1, 2])', 'fiddler:widen(factor=10)',
+              'set:p[1]=5', 'fiddler:set_layers(layers=[1, 2])', 'fiddler:widen(factor=2)'])
+    if list(f4.value.p) != [2, 4]:
+      bad(f'directives applied in order give p == [2, 4]; the flag produced {f4.value.p} (a literal '
+          'argument of an earlier directive was reused)')
+  except Exception as e:   # pylint: disable=broad-except
+    bad(f'a valid directive sequence (config, fiddlers, set in order) raised {type(e).__name__}: {e}')
   # call expressions with literal arguments
   for src, fn, args, kwargs in [("f", 'f', (), {}), ("f()", 'f', (), {}), ("a.b.f(1, 'x', k=[1, {'z': None}])", 'a.b.f', (1, 'x'), {'k': [1, {'z': None}]}),
                                 ("f(-1.5, (1, 2), t=True)", 'f', (-1.5, (1, 2)), {'t': True})]:
@@ -303,7 +309,7 @@ def run(tier='quick', seed=0, nproc=16):
   for n in range(0, k + 1):
     seqs += list(itertools.permutations(OVERRIDES, n)) if n <= 2 else gen.shuffled(list(itertools.permutations(OVERRIDES, n)))[:300]
   res += common.pmap(check_directives, seqs, nproc)
-  res.append(misc_cases())
+  res.append(common.guard(misc_cases))
   return common.merge(
       res, 'layerb.prop_C18', keyfn=lambda v: (f"{v.get('config')}:{v.get('vkind')}" if v.get('config') else None),
       rule='configurations in the property domain (quote-free string / int dict keys, literal leaves, '
